@@ -26,7 +26,7 @@ def main():
     c = Check('C16')
     c.assumptions = [
         'operations: create (Element::new, optionally with one attribute), add_unique_child (also create+add in one step), set_child_optional, remove_child, get_child(_mut), re-adding a removed child, adding a clone of an existing child, merge_attr (one attribute, symbolic tag), set_multiple, text = Some(..), nested add (child gets a grandchild before being added)',
-        'names from {a, b, c} (the operations only compare names): every equality pattern of <= length names is covered',
+        'element names from {a, b, c} (the operations only compare names): every equality pattern of <= length names is covered; attribute names from {a, b, c}, and {a, xmlns:x} in the namespace-declaration configuration',
         'one parent with a staged child and grandchildren (two levels); deeper trees are the same operations applied one level down',
         'rendering with the quick-xml preset; identifier legality for adversarial names is C04',
     ]
@@ -34,7 +34,7 @@ def main():
     if True:
         for label, kw in configs(c.tier):
             c.run(label, 'rsym.hc', 'OpSequence', kw, required_witnesses=tuple('op:' + o for o in kw.get('ops', ('add', 'opt'))[:2]), time_cap=600 if c.tier == 'quick' else 900)
-    c.finish(bounds={'sequences': [l for l, _ in configs(c.tier)]}, outside=['longer sequences', 'names outside {a,b,c}', 'trees deeper than parent/child/grandchild'],
+    c.finish(bounds={'sequences': [l for l, _ in configs(c.tier)]}, outside=['longer sequences', 'names outside {a,b,c} (attributes: plus xmlns:x)', 'trees deeper than parent/child/grandchild'],
              trusted=['rsym + models', 'z3', 'ordered-map model (rsym/hc.py)', 'tools/replay op=ops'],
              technique='symbolic execution of operation sequences (operation kind, names, flags symbolic); stepwise comparison with an ordered-map model decided by z3')
 if __name__ == '__main__':
